@@ -322,9 +322,9 @@ def stat_model(ctx):
     mod = repo.module("gaftools.cli.stat", "R19.2")
     m = StatModel()
     m.f = None
-    from ..core import inline_access_aliases, tail_inlined
+    from ..core import expand_table_dispatch, inline_pure_temps, tail_inlined
 
-    for f in [inline_access_aliases(tail_inlined(repo, f0)) for f0 in mod.funcs.values()]:
+    for f in [inline_pure_temps(expand_table_dispatch(tail_inlined(repo, f0))) for f0 in mod.funcs.values()]:
         for n in f.node.body:
             if isinstance(n, ast.For) and "read_file" in norm(n.iter):
                 m.f, m.loop = f, n
@@ -420,7 +420,8 @@ def r19_2_3(ctx, m):
     if prim_counter is None or m.sec_counter is None:
         raise AnalysisError("R19.2", f.where(m.loop), "cannot identify the primary/secondary counters")
     ctx.check(sec_print == m.sec_counter, "R19.2", f.where(), "the figure printed as secondary is the counter incremented by the secondary filter", key_of(f, f"secondary-print:{sec_print}"), printed=sec_print, counter=m.sec_counter)
-    ctx.check(m.enum and m.enum_start == 1 and total_print == m.count_var, "R19.2", f.where(m.loop), "the total printed is the 1-based enumerate counter of the record loop (number of records)", key_of(f, f"total:{total_print}:{m.enum_start}"), printed=total_print, start=m.enum_start)
+    ok_total = m.enum and isinstance(m.enum_start, int) and total_print in ((m.count_var,) if m.enum_start == 1 else (f"{m.count_var} + {1 - m.enum_start}", f"{1 - m.enum_start} + {m.count_var}") if m.enum_start < 1 else ())
+    ctx.check(ok_total, "R19.2", f.where(m.loop), "the total printed is the 1-based enumerate counter of the record loop (number of records)", key_of(f, f"total:{total_print}:{m.enum_start}"), printed=total_print, start=m.enum_start)
     bad = None
     bad3 = None
     accs = accumulators(m)
@@ -596,7 +597,15 @@ def r19_4(ctx, m):
                     entry_vars.add(tg_.id)
     read_attrs = sorted({x.attr for st in after for x in ast.walk(st) if isinstance(x, ast.Attribute) and isinstance(x.ctx, ast.Load) and isinstance(x.value, ast.Name) and x.value.id in entry_vars})
     updated = {k.rsplit(".", 1)[-1] for k in max_updates} | {norm(s_.target).rsplit(".", 1)[-1] for s_ in walk_stmts(m.loop.body) if isinstance(s_, ast.AugAssign)}
+    def root_name(e):
+        while isinstance(e, (ast.Attribute, ast.Subscript)):
+            e = e.value
+        return e.id if isinstance(e, ast.Name) else None
+
+    opaque = [c for c in ast.walk(m.loop) if isinstance(c, ast.Call) and not (isinstance(c.func, ast.Name) and c.func.id in ("len", "float", "int", "str", "print", "round", "max", "min")) and (any(root_name(a_) in accs and isinstance(a_, (ast.Name, ast.Subscript)) for a_ in c.args) or (isinstance(c.func, ast.Attribute) and isinstance(c.func.value, (ast.Name, ast.Subscript)) and root_name(c.func.value) in accs and c.func.attr not in ("get", "items", "values", "keys"))) and ctx.repo.resolve_call(f, c) is not None]
     for a in read_attrs:
+        if a not in updated and opaque:
+            raise AnalysisError("R19.4", f.where(opaque[0]), f"the per-read entry is handed to `{norm(opaque[0].func)}`, which is not inlined: whether `{a}` is kept up to date is not decided")
         ctx.check(a in updated, "R19.4", f.where(m.loop), f"the per-read value `{a}` that the report averages is updated for every later record of the read", key_of(f, f"per-read-not-updated:{a}"))
     # every maximum guard is evaluated on every path of the 'read already seen' branch
     if max_updates:
@@ -655,12 +664,13 @@ def r19_5(ctx, m):
         args = n.iter.args
         if fn == "range":
             ok_range = False
-            if len(args) == 3 and const_value(args[0]) == 0 and const_value(args[2]) == 2:
-                mm = re.fullmatch(r"len\((\w+)\)( - 1)?", norm(args[1]))
+            if len(args) == 3 and const_value(args[0]) in (0, 1) and const_value(args[2]) == 2:
+                # the grouped list has even length 2k: pairs (0,1) .. (2k-2, 2k-1); from 0: stop 2k-1 or 2k; from 1: stop 2k or 2k+1
+                mm = re.fullmatch(r"len\((\w+)\)( - 1)?" if const_value(args[0]) == 0 else r"len\((\w+)\)( \+ 1)?", norm(args[1]))
                 if mm:
                     cl, lst = n, mm.group(1)
                     iv = norm(n.target)
-                    len_expr, op_expr = f"{lst}[{iv}]", f"{lst}[{iv} + 1]"
+                    len_expr, op_expr = (f"{lst}[{iv}]", f"{lst}[{iv} + 1]") if const_value(args[0]) == 0 else (f"{lst}[{iv} - 1]", f"{lst}[{iv}]")
                     ok_range = True
             if cl is None:
                 cl = n
@@ -693,8 +703,7 @@ def r19_5(ctx, m):
         if isinstance(t, ast.Compare) and len(t.ops) == 1 and isinstance(t.ops[0], ast.Eq) and norm(t.left) == op_expr:
             op = const_value(t.comparators[0])
         if op is None:
-            ctx.violated("R19.5", f.where(cur), f"branch test `{norm(t)}` does not compare the operation element {op_expr} with an operation letter", key_of(f, f"cigar-branch:{norm(t)}"))
-            break
+            raise AnalysisError("R19.5", f.where(cur), f"branch test `{norm(t)}` is not a comparison of the operation element {op_expr} with an operation letter")
         incs = [s for s in cur.body if isinstance(s, ast.AugAssign) and isinstance(s.op, ast.Add) and const_value(s.value) == 1]
         if len(incs) == 1:
             counters[op] = norm(incs[0].target)
@@ -711,9 +720,14 @@ def r19_5(ctx, m):
             cur = cur.orelse[0]
         else:
             cur = None
+    if not counters:
+        raise AnalysisError("R19.5", f.where(cl), "cannot find the per-operation branches of the run-counting loop")
     ctx.check(set(counters) == set(OP_LABEL) and len(set(counters.values())) == 4, "R19.5", f.where(cl), "each operation letter D, I, X, = has exactly one run counter, incremented once per run", key_of(f, f"cigar-counters:{sorted(counters.items())}"), counters=counters)
     ctx.check(set(larges) == set(OP_LABEL) and len({v[0] for v in larges.values()}) == 4 and len({v[1].split(' ', 1)[1] for v in larges.values()}) == 1, "R19.5", f.where(cl), "each operation has its own 'large run' counter with one common length threshold", key_of(f, f"cigar-large-counters:{sorted((k, v[0]) for k, v in larges.items())}"), large={k: v[0] for k, v in larges.items()})
     # report labels
+    from ..core import make_resolver
+
+    res = make_resolver(m.loop.body)
     for n in walk_own(f.node):
         if isinstance(n, ast.Call) and isinstance(n.func, ast.Name) and n.func.id == "print" and n.args and isinstance(n.args[0], ast.BinOp) and isinstance(n.args[0].op, ast.Mod):
             parts = tmpl.of_expr(n.args[0])
@@ -725,13 +739,26 @@ def r19_5(ctx, m):
                 elif p[0] == "hole":
                     pairs.append((label, norm(p[1])))
             bad = None
+            known = set(counters.values()) | {v[0] for v in larges.values()}
+
+            def source(h):
+                """the run counter a printed figure stands for: itself, or the one counter whose per-record value it sums"""
+                if h in known:
+                    return h
+                adds = [s_ for s_ in walk_stmts(m.loop.body) if isinstance(s_, ast.AugAssign) and isinstance(s_.op, ast.Add) and norm(s_.target) == h]
+                if len(adds) == 1:
+                    src = norm(res(adds[0].value))
+                    if src in known:
+                        return src
+                raise AnalysisError("R19.5", f.where(n), f"cannot trace the printed figure `{h}` to one of the run counters {sorted(known)}")
+
             for op, word in OP_LABEL.items():
                 hits = [h for l, h in pairs if word in l.lower()]
-                if hits and counters.get(op) and hits[0] != counters[op]:
+                if hits and counters.get(op) and source(hits[0]) != counters[op]:
                     bad = (word, hits[0], counters[op])
                 # the hole that follows "(" after the label is the large counter
                 idx = [i for i, (l, h) in enumerate(pairs) if word in l.lower()]
-                if idx and idx[0] + 1 < len(pairs) and larges.get(op) and pairs[idx[0] + 1][1] != larges[op][0]:
+                if idx and idx[0] + 1 < len(pairs) and larges.get(op) and source(pairs[idx[0] + 1][1]) != larges[op][0]:
                     bad = (word + " (large)", pairs[idx[0] + 1][1], larges[op][0])
             for a in tmpl.arity_errors(parts):
                 bad = ("arity", a[2], "")
@@ -789,7 +816,9 @@ def r19_7(ctx, m):
                 n += 1
                 ctx.check(norm(b.right) == f"len({table})", "R19.7", f.where(b), f"the average `{acc}` is divided by the number of entries of `{table}`", key_of(f, f"avg-denominator:{acc}:{norm(b.right)}"), denominator=norm(b.right))
         # each entry contributes exactly once, unfiltered
-        skip = [s for s in walk_stmts(l.body) if isinstance(s, (ast.If, ast.Continue, ast.Break))]
+        from ..core import own_loop_jumps
+
+        skip = [s for s in walk_stmts(l.body) if isinstance(s, ast.If)] + own_loop_jumps(l.body)
         ctx.check(not skip, "R19.7", f.where(l), f"every entry of `{table}` contributes to the averages", key_of(f, f"agg-filter:{table}"))
     ctx.require_count("R19.7", n, 2, f.where(), "averages over the per-read table")
     # the figures printed as averages are those accumulators
